@@ -142,7 +142,8 @@ jj = J(s)
 
 
 def harnesses(tier):
-    out = [count_transform()]
+    import gen_C08_extra
+    out = gen_C08_extra.harnesses(tier) + [count_transform()]
     units = cat.unit()
     for t in units:
         out.append(refill(t, 1))
@@ -165,8 +166,8 @@ def harnesses(tier):
     if tier == "thorough":
         for t in units:
             out.append(refill(t, 2, weights=True, timeout=240))
-            if not t.cmp_only:
-                out.append(gate(t, "real"))
+            if t.cmp_only:
+                out.append(gate(t, "real"))   # quick has the ieee twin for comparison-only trees
         for t in slots + cat.deep():
             out.append(laws(t, timeout=big))
             out.append(gate(t, "real", timeout=90))
